@@ -282,11 +282,34 @@ def discharge(pairs, path, defined, witness, timeout_s=10.0, seed=0, norm_first=
             if has_uf:
                 detail["raw"] = "sat-with-uninterpreted-functions (not a counterexample)"
                 return None
+            # ask again for a ROBUST counterexample (difference >= 1/8, leaves in a box) so that it survives the
+            # float64 replay tolerance; fall back to the first model
+            try:
+                margin = Fraction(1, 8)
+                robust = []
+                for a, b in lp:
+                    if T.sort_of(a) == T.B or T.sort_of(b) == T.B:
+                        robust.append(T.lnot(T.eq(a, b)))
+                    else:
+                        d = T.sub(a, b)
+                        robust.append(T.lor(T.gt(d, margin), T.lt(d, -margin)))
+                r2, menv2, _ = z3_check(list(path) + list(defined), robust, tmo * 1000, box=8, seed=seed)
+                queries += 1
+                if r2 == "sat":
+                    menv = menv2
+                    detail["robust_model"] = True
+            except T.UnsupportedTerm:
+                pass
             full = dict(witness)
             full.update(menv)
             return Verdict("refuted", "RAW", time.time() - t0, model=full, detail=detail, queries=queries)
         return None
 
+    # obligations over finite-domain integers (ite / index chains) are what the indicator normal form decides;
+    # z3's mixed int/real nonlinear reasoning mostly times out on them, so NORM goes first there
+    if not norm_first and T._RANGES:
+        if any(t.op == "var" and t.sort == T.Z and t.args[0] in T._RANGES for t in T.reachable([x for p in lp for x in p])):
+            norm_first = True
     # 2. RAW z3 over the whole disjunction, short cap (polynomial identities and refutations come back in ms)
     if not norm_first:
         v = try_raw(min(raw_first_s, timeout_s))
